@@ -134,6 +134,10 @@ class VhdxGates(MutantSuite):
         out.append({"base": dict(hp, locator_type=str(uuid.UUID(int=99))), "mut": ["foreign_locator"], "must_reject": True})
         out.append({"base": dict(hp, omit_locator=True), "mut": ["missing_locator"], "must_reject": True})
         out.append({"base": hp, "mut": ["parent_missing"], "must_reject": True})
+        # the same three through a handle that has no name (io.BytesIO, a stream of a virtual file system): a differencing
+        # image whose parent cannot be located must still be refused, not served alone
+        for c in list(out[-3:]):
+            out.append(dict(c, mut=c["mut"] + ["nameless"], nameless=True))
         return out
 
     def _file(self, case):
@@ -145,6 +149,8 @@ class VhdxGates(MutantSuite):
             orig = sf.content(off + m[2], 1)[0]
             sf = patched(sf, off + m[2], bytes([orig ^ m[3]]))
             sf.name = "/nonexistent_dir_verif/child.vhdx"
+        if case.get("nameless"):
+            sf.name = None
         return sf
 
     def impl(self, case):
